@@ -453,7 +453,18 @@ class _ExceptionalConditionChecker:
             raise RefactoringError("Bad region selected for extract method")
         try:
             extracted = info.extracted
+            if not extracted.strip():
+                raise RefactoringError(
+                    "Extracted piece should contain complete statements."
+                )
+            if info.variable:
+                body = info._parsed_extracted.body
+                if not (len(body) == 1 and isinstance(body[0], ast.Expr)):
+                    raise RefactoringError(
+                        "Extract variable should extract an expression."
+                    )
             if info.one_line:
+                self._check_one_line_piece(extracted.strip())
                 extracted = "(%s)" % extracted
             if _UnmatchedBreakOrContinueFinder.has_errors(extracted):
                 raise RefactoringError(
@@ -463,6 +474,23 @@ class _ExceptionalConditionChecker:
             raise RefactoringError(
                 "Extracted piece should contain complete statements."
             )
+
+    def _check_one_line_piece(self, piece):
+        # raises SyntaxError (turned into a RefactoringError by the caller)
+        # when the piece is neither statements nor one complete expression
+        try:
+            ast.parse(piece)
+        except SyntaxError:
+            # a named expression needs parentheses; anything else that only
+            # parses inside them ("a) * (b") is not a complete expression
+            wrapped = "(%s)" % piece
+            value = ast.parse(wrapped).body[0].value
+            segment = ast.get_source_segment(wrapped, value)
+            if isinstance(value, ast.GeneratorExp):
+                segment = segment[1:-1]
+            if segment != piece:
+                raise
+            return
 
     def one_line_conditions(self, info):
         if self._is_region_on_a_word(info):
